@@ -207,6 +207,8 @@ func curvedShapes() []shape {
 		{mv, 0, 0, mv, cb, 6, 6, -6, 6, 0, 0, cb, cl, 0, 0, cl},                           // teardrop: ONE closed cubic returning to its start with a corner (zero-length close)
 		{mv, 0, 0, mv, cb, -6, 6, 6, 6, 0, 0, cb, cl, 0, 0, cl},                           // the same, clockwise
 		{mv, 0, 0, mv, ar, 3, 2, 0, 3, 0, 1, ar, cl, 0, 0, cl},                            // one large arc closed by a short line
+		{mv, 0, 0, mv, ar, 6, 3, 40 * math.Pi / 180, 0, 9.6, 3.6, ar},                     // long span of a 2:1 ellipse, rotated (the offset of an ellipse is not an ellipse)
+		{mv, 0, 0, mv, ar, 6, 2, 0, 0, 12, 0, ar},                                         // half of a 3:1 ellipse
 	}
 	var out []shape
 	for _, d := range raw {
@@ -703,6 +705,20 @@ func knownPredicates() map[string]func(*fw.Violation) bool {
 			}
 			for _, s := range sps[0].Segs {
 				if (s.Kind == oracle.CmdLine || s.Kind == oracle.CmdClose) && s.P0.Dist(s.P1) > 0 && s.P0.Dist(s.P1) < w/2 {
+					return true
+				}
+			}
+			return false
+		},
+		// the stroker offsets an elliptical arc A rx ry by the arcs A rx+-w/2 ry+-w/2, which is not
+		// the offset curve unless rx = ry: visible from an axis ratio of 2 on
+		"open-elliptical-arc-axis-ratio-2-or-more": func(v *fw.Violation) bool {
+			sps, _, ok := parseCase(v.Case)
+			if !ok || !strings.Contains(v.Case, "Stroke(") || len(sps) != 1 || sps[0].Closed {
+				return false
+			}
+			for _, s := range sps[0].Segs {
+				if s.Kind == oracle.CmdArc && (s.Rx >= 2*s.Ry || s.Ry >= 2*s.Rx) {
 					return true
 				}
 			}
